@@ -1,4 +1,4 @@
-import TmVerif.Proofs.LRSoundAccept
+import TmVerif.Proofs.LRSoundPanic
 /-!
 C01 — soundness of the table-driven LR parser runtime (`gen/templates/go_parser.go.tmpl`, model
 `TmVerif.LR.run`) with respect to the decidable certificate check `certOk` (Model/LRSound.lean),
@@ -51,6 +51,54 @@ theorem C01_lr_sound (g : Grammar) (t : Tables) (cert : Cert) (inp : Input) (i f
         rw [he] at he'
         cases he'
 
+/-! Non-vacuity: real tables of `lalr.Compile` for the grammar `S: t4 t3 t4 ;` (5 terminals, one
+nonterminal, input `S` with end-of-input; taken from a `C01 validate` case of the harness). All
+hypotheses hold, the model accepts `t4 t3 t4`, and the theorem yields the sentence. -/
+private def exG : Grammar :=
+  { nTerms := 5, nSyms := 6, rules := #[⟨5, [4, 3, 4], 0⟩], inputs := #[⟨5, true⟩] }
+private def exT : Tables :=
+  { nTerms := 5, action := #[-1,-1,-1,0,-1,-2], lalr := #[], goto_ := #[0,2,2,2,4,8,10], fromTo := #[4,5,1,2,0,1,2,3,0,4], ruleLen := #[3], ruleSymbol := #[5], finalStates := #[5] }
+private def exCert : Cert := { past := #[[], [4], [3, 4], [4, 3, 4], [5], [0, 5]] }
+private def exInp : Input := { toks := #[⟨4, 0, 1⟩, ⟨3, 1, 2⟩, ⟨4, 2, 3⟩], endOff := 3 }
+
+example : certOk exG exT exCert = true ∧
+    (∀ tk ∈ exInp.toks.toList, 0 < tk.sym ∧ tk.sym < (exT.nTerms : Int)) ∧
+    0 < exG.inputs.size ∧ (run exT exInp 0 20).1 = Result.accept ∧
+    Reach exT exInp 0 (initCfg exInp 0) := by
+  refine ⟨by decide +kernel, by decide +kernel, by decide +kernel, by decide +kernel, Reach.init⟩
+
+example : Sentence exG 0 [4, 3, 4] := by
+  obtain ⟨n, _, h, hn⟩ := C01_lr_sound exG exT exCert exInp 0 20 (run exT exInp 0 20).2
+    (by decide +kernel) (by decide +kernel) (by decide +kernel)
+    (Prod.ext (by decide +kernel) rfl)
+  rw [hn ⟨⟨5, true⟩, rfl, rfl⟩] at h
+  exact h
+
+/-- For certified tables the runtime model never panics: no index or slice expression of the
+generated parser loop (`tmAction[state]`, `tmLalr[..]`, `tmRuleLen[rule]`, `stack[len-ln:]`,
+`tmGoto[..]`, …) is out of range, on any token string and with any fuel. -/
+theorem C01_lr_no_panic (g : Grammar) (t : Tables) (cert : Cert) (inp : Input) (i fuel : Nat)
+    (hc : certOk g t cert = true)
+    (htok : ∀ tk ∈ inp.toks.toList, 0 < tk.sym ∧ tk.sym < (t.nTerms : Int))
+    (hi : i < g.inputs.size) :
+    (run t inp i fuel).1 ≠ Result.panic := by
+  have hcf := certFacts hc
+  unfold run
+  cases hfin : t.finalStates[i]? with
+  | none =>
+    have := hcf.fin
+    have hlt : i < t.finalStates.size := by omega
+    rw [Array.getElem?_eq_getElem hlt] at hfin
+    cases hfin
+  | some fin =>
+    simp only
+    intro h
+    exact runLoop_no_panic hcf htok hi fin fuel _ _ (inv_init g t i inp) (Prod.ext h rfl)
+
+example : (run exT exInp 0 20).1 ≠ Result.panic :=
+  C01_lr_no_panic exG exT exCert exInp 0 20 (by decide +kernel) (by decide +kernel)
+    (by decide +kernel)
+
 /-- Every reduction the loop performs is justified: in every configuration reachable from the
 initial one (`Reach`, any number of `step`s), if the decoded action is "reduce `r`" then `r` is a
 rule of the grammar, its right-hand side lies on top of the stack (so the pop cannot underflow),
@@ -79,5 +127,39 @@ theorem C01_lr_reductions_derive (g : Grammar) (t : Tables) (cert : Cert) (inp :
     · exact hact
   rw [e1, e3]
   exact reduce_spec hcf hi c.stack s r syms _ hstk hok
+
+/-! Non-vacuity: after shifting `t4 t3 t4` with the tables above the decoded action is "reduce
+rule 0", and the theorem shows `4 3 4` on top of the stack. -/
+private def exNext (c : Cfg) : Cfg :=
+  match step exT exInp c with
+  | .cont c' => c'
+  | .done _ c' => c'
+private def exC1 : Cfg := exNext (initCfg exInp 0)
+private def exC2 : Cfg := exNext exC1
+private def exC3 : Cfg := exNext exC2
+private def exIsCont (c : Cfg) : Bool :=
+  match step exT exInp c with
+  | .cont _ => true
+  | .done _ _ => false
+private theorem exNext_spec (c : Cfg) (h : exIsCont c = true) :
+    step exT exInp c = .cont (exNext c) := by
+  unfold exIsCont at h
+  unfold exNext
+  split <;> simp_all
+
+example : Reach exT exInp 0 exC3 ∧ (∃ c1, decode exT exInp exC3 = some (c1, .reduce 0)) ∧
+    (exC3.stack.take 3).map (·.sym) = [4, 3, 4] := by
+  have r1 : Reach exT exInp 0 exC1 := Reach.step _ _ Reach.init (exNext_spec _ (by decide +kernel))
+  have r2 : Reach exT exInp 0 exC2 := Reach.step _ _ r1 (exNext_spec _ (by decide +kernel))
+  have r3 : Reach exT exInp 0 exC3 := Reach.step _ _ r2 (exNext_spec _ (by decide +kernel))
+  have hd : (decode exT exInp exC3).map (·.2) = some (.reduce 0) := by decide +kernel
+  refine ⟨r3, ?_, by decide +kernel⟩
+  cases h : decode exT exInp exC3 with
+  | none => rw [h] at hd; cases hd
+  | some p =>
+    obtain ⟨c1, a⟩ := p
+    rw [h] at hd
+    injection hd with hd
+    exact ⟨c1, by rw [← hd]⟩
 
 end TmVerif.LRSound
